@@ -36,7 +36,7 @@ ASSUMPTIONS = [
 LONGS = ["aa", "bb", "cc", "dd"]
 SHORTS = ["a", "b", "c"]
 ARGS = ["x", "y", "z"]
-PROBE_NAMES = LONGS + SHORTS + ["zz"]
+PROBE_NAMES = LONGS + SHORTS + ["zz", "ee"]
 
 
 def O(long, short):
@@ -67,6 +67,8 @@ OPS = [
     ("add_arguments", (A("x", "opt"), A("x", "req"))),
     ("add_options", (O("aa", "a"), O("cc", "a"))),
     ("set_arguments", (A("y", "opt"), A("x", "req"))),
+    # an alias list that repeats the option's own names
+    ("add", CO("dd", "c", ["dd", "--dd", "c"])),
 ]
 BASES = [
     [],
@@ -363,8 +365,20 @@ def execute(sh, lab, base_id, ops, record):
     nontrivial = False
     rejected_any = False
     seen_add = False
+    model_lost = False
     for n, op in enumerate(ops):
         last = n == len(ops) - 1
+        if model_lost:
+            # after a replacement that failed half-way the model no longer follows; the real builder goes on and must
+            # still end in a consistent state (invariants, builder = format)
+            try:
+                apply_real(lab, b, op)
+            except lab.reject:
+                pass
+            except Exception as e:
+                sh.violate("operation-exception-type", record, "step %d %r raised %r" % (n, op, e))
+                return nontrivial
+            continue
         if op[0] != "add" and seen_add:
             nontrivial = True
         seen_add = seen_add or op[0] == "add"
@@ -395,8 +409,9 @@ def execute(sh, lab, base_id, ops, record):
         if not got:
             sh.count("rejections")
             if op[0] != "add":
-                # a set_* that fails half-way is not a single addition: later answers are not comparable
-                return nontrivial
+                # a set_* that fails half-way is not a single addition: later answers are not comparable with the model
+                model_lost = True
+                continue
             if before is not None:
                 after = lab.real_answers(b, nargs, False)
                 if before != after:
@@ -415,6 +430,9 @@ def execute(sh, lab, base_id, ops, record):
         sh.violate("query-raises", record, "query raised %r" % (e,))
         return nontrivial
     sh.count("final_states")
+    if model_lost:
+        sh.count("final_states_after_failed_replacement")
+        want = ba  # no model: the builder's own answers stand in for the comparisons below
     d = diff(ba, want)
     if d:
         sh.violate("builder-vs-model", record, "builder answers differ from the listed elements: " + "; ".join(d[:4]), key_for(d))
@@ -461,7 +479,7 @@ def execute(sh, lab, base_id, ops, record):
         sh.violate("format-changed-after-build", record, "the built format answers differently after the builder went on and a caller changed returned containers: " + (
             "; ".join(d[:4]) if d else "listing order %r -> %r" % (fo, fo2)))
     # ---- constructor parity ---------------------------------------------------
-    if all(op[0] == "add" for op in ops):
+    if all(op[0] == "add" for op in ops) and not model_lost:
         lab2 = lab
         elems = [lab2.mk(op[1]) for op in ops]
         try:
